@@ -74,6 +74,12 @@ class Form:
         return " + ".join(parts)
 
 
+def _array_len_of(ty):
+    import re
+    m = re.match(r"^&(?:mut )?\[[^;\[\]]+; (\d+)\]$", ty.strip())
+    return int(m.group(1)) if m else None
+
+
 def atom_name(a):
     if a[0] == "sym":
         return a[1]
@@ -400,7 +406,7 @@ class Affine:
             so.pop(("len", ("L", dl)), None)
             f = None
             if name == "len" and args:
-                f = self.len_form(st, args[0])
+                f = self._slice_len(st, args[0]) or self.len_form(st, args[0])
             elif name in ("checked_add",) and len(args) == 2:
                 a, bf = self.op_form(st, args[0]), self.op_form(st, args[1])
                 if a is not None and bf is not None:
@@ -579,6 +585,10 @@ class Affine:
                     nxt = op_place(rv["use"])["l"]
                 elif "cast" in rv and op_place(rv["cast"]):
                     nxt = op_place(rv["cast"])["l"]
+                    # &[T; N] -> &[T]: the slice has the array's length
+                    n = _array_len_of(self.b.local_ty(nxt))
+                    if n is not None and "Unsize" in str(rv.get("kind")):
+                        return Form.const(n)
                 if nxt is None:
                     break
                 l = nxt
